@@ -583,4 +583,6 @@ def check(ctx, rep):
     n = add_fwd(rep, forwarding(an, program, ['include_plus'], callers=callers), 'C01c')
     rep.floor('FWD', 'include_plus forwarding sites', n, 25)
     value_text(ctx, rep, 'C01a')
+    from .common import value_preserving_rule
+    value_preserving_rule(ctx, rep, 'C01a', ('peptacular.proforma.proforma_dataclasses', 'peptacular.proforma.proforma_parser', 'peptacular.proforma.input_convert'))
     index_kinds(ctx, rep, 'C01d')
